@@ -113,15 +113,15 @@ class Planted:
     """c, G (list of n columns of length N), h, A (list of n columns of length p), b, dims, kind and witnesses"""
     def __init__(self, **kw): self.__dict__.update(kw)
 
-def planted_conelp(rng, kind='optimal', n=None, dims=None, p=None, P_rank=None):
+def planted_conelp(rng, kind='optimal', n=None, dims=None, p=None, P_rank=None, free=0):
     """kind: 'optimal' (strictly feasible primal and dual witnesses), 'pinf' (strict Farkas certificate),
     'dinf' (strictly improving ray).  With P_rank not None a PSD matrix P = B'B (rank P_rank) is added (cone QP)."""
     for outer in range(100):
-        pr = _planted_try(rng, kind, n, dims, p, P_rank)
+        pr = _planted_try(rng, kind, n, dims, p, P_rank, free)
         if pr is not None: return pr
     raise RuntimeError('no full-rank planted instance found')
 
-def _planted_try(rng, kind, n, dims, p, P_rank):
+def _planted_try(rng, kind, n, dims, p, P_rank, free=0):
     dims = dims or rand_dims(rng)
     N = cdim(dims)
     n = n or rng.randint(1, min(4, max(1, N)))
@@ -131,6 +131,11 @@ def _planted_try(rng, kind, n, dims, p, P_rank):
         n = N - 1
     p = rng.randint(0, min(2, n - 1)) if p is None else p
     G = [sym_vector(rng, dims) for _ in range(n)]
+    if free:
+        # `free` variables occur in no inequality (G alone is rank deficient); equality constraints make [G; A] full rank
+        free = min(free, n - 1) if n > 1 else 0
+        p = max(p, free)
+        for j in range(n - free, n): G[j] = [0.0] * N
     A = [[rint(rng) for _ in range(p)] for _ in range(n)]
     if rank_cols(G, A) != n or rank_rows(A, p) != p: return None
     w = {}
